@@ -171,7 +171,7 @@ func c16r2(c *an.Ctx) {
 	}
 	c.Floor("newPrefixConn calls", 1, nPC)
 	// ownership typestate: closed xor sent
-	flow := &an.Flow{Fn: rc, Init: []string{"open"},
+	flow := &an.Flow{Fn: rc, Inline: an.InlineSamePackage(rc), Init: []string{"open"},
 		Step: func(st string, in ssa.Instruction) []string {
 			if call, ok := in.(*ssa.Call); ok && call.Common().IsInvoke() && call.Common().Method.Name() == "Close" {
 				if n, isN := call.Common().Value.Type().(*types.Named); isN && n.Obj().Name() == "Conn" {
